@@ -21,7 +21,9 @@ name absent from the multi-action table, and recursion continues with the recall
 the witness handed to each child of a multi-action node depends on which child it is (the action),
 and what is stored at creation is what is compared later; Node::Terminal is built only under
 is_finite(payoff). Plus: every GameError variant has a producer, every per-player table access is
-selected by the node's own player number, and construction starts from an empty witness.
+selected by the node's own player number, construction starts from an empty witness, compact::Builder::contains
+is membership in its backing map (not membership plus a condition on the index found), and the Gambit reader
+files every chance node under its own information-set number (and looks a decision node's name up by it).
 Not decided: that these checks are *sufficient* for evaluation and solving to be well defined on
 everything accepted (e.g. finite positive weights whose sum overflows), and "never panics".
 """
@@ -445,3 +447,55 @@ def run(ctx):
             w = strip_refs(e[2][4])
             ok = w[0] == 'repeat' and w[1][0] == 'agg' and w[1][1].endswith('Option::None')
             ctx.verdict(ok, 'C11.from-root', 'C11.from-root:empty-witness', 'construction starts with the empty recall witness [None; 2]', fr.where(bi), 'initial witness %s' % facts.show(w))
+
+    # ---- the gambit reader hands every node over under its own information-set id
+    rule = 'C11.reader-infoset-key'
+    g = ctx.bin.one("<gambit::JoinedNode<'_> as cfr::IntoGameNode>::into_game_node") if ctx.bin is not None else None
+    if g is None:
+        if ctx.bin is not None:
+            ctx.anchor_lost(rule, 'gambit into_game_node')
+    else:
+        ctx.touch(g)
+        for variant, slot in (('Chance', 0), ('Player', 1)):
+            sites = list(q.agg_sites(g, 'GameNode', variant))
+            if not sites:
+                ctx.anchor_lost(rule, 'gambit into_game_node: GameNode::%s' % variant)
+            for bi, st, e in sites:
+                key = e[2][slot]
+                # accessor calls of the parsed node (gambit_parser::Chance / Player) that the key is computed from
+                acc = [x for x in facts.walk(key) if x[0] == 'call' and 'gambit_parser::' + variant in x[1] and x[2]
+                       and q.find_sub(x[2][0], lambda y: y[0] == 'downcast' and y[2] == variant) is not None]
+                names = sorted({short(x[1]) for x in acc})
+                if not acc:
+                    ctx.anchor_lost(rule, 'gambit into_game_node: what the information set of a %s node is named after' % variant.lower(), 'key %s' % facts.show(key)[:80])
+                    continue
+                want = {'infoset'} if variant == 'Chance' else {'infoset', 'player_num'}
+                ctx.verdict('infoset' in names and set(names) <= want, rule, '%s:%s' % (rule, variant.lower()),
+                            'a %s node of a Gambit file is filed under its information-set number' % variant.lower() + (' (in its player\'s name table)' if variant == 'Player' else ''),
+                            g.where(bi), 'key computed from the node\'s %s' % ', '.join(n_ + '()' for n_ in names),
+                            breaks='nodes of different information sets are merged (valid files rejected with ProbabilitiesNotEqual / ActionsNotEqual) or nodes of one set are split')
+
+    # ---- Builder::contains is membership
+    rule = 'C11.builder-contains'
+    bc = lib.one('compact::Builder::<K, V>::contains')
+    if bc is None:
+        if any(short(p) == 'contains' and 'compact::Builder' in p for g in [f] + closures for _, _, p in g.calls()):
+            ctx.anchor_lost(rule, 'compact::Builder::contains')
+    else:
+        ctx.touch(bc)
+        r = strip_refs(q.ret_expr(bc))
+        on_map = lambda x: x[0] == 'call' and len(x[2]) == 2 and q.find_sub(x[2][0], lambda y: y[0] == 'field' and strip_refs(y[1])[0] == 'param') is not None \
+            and q.find_sub(x[2][1], lambda y: y[0] == 'param' and y[1] == 2) is not None
+        LOOKUPS = ('get', 'get_index_of', 'get_full', 'get_key_value')
+        verdict = None
+        if on_map(r) and short(r[1]) == 'contains_key':
+            verdict = True
+        elif q.is_call(r, 'is_some') and on_map(strip_refs(r[2][0])) and short(strip_refs(r[2][0])[1]) in LOOKUPS:
+            verdict = True
+        elif r[0] == 'call' and r[2] and on_map(strip_refs(r[2][0])) and short(strip_refs(r[2][0])[1]) in LOOKUPS and short(r[1]) in ('is_some_and', 'map_or', 'is_none_or', 'map_or_else', 'filter'):
+            verdict = False      # presence *and* a condition on what was found
+        if verdict is None:
+            ctx.anchor_lost(rule, 'compact::Builder::contains: membership test of the backing map', 'returns %s' % facts.show(r)[:80])
+        else:
+            ctx.verdict(verdict, rule, rule, 'Builder::contains(key) is exactly "key has been entered": a single-action occurrence of an infoset that already has an entry is recognised whichever index that entry got',
+                        bc.where(0), 'returns %s' % facts.show(r)[:90], breaks='an infoset registered with several actions is accepted again with one action (it ends up in both tables; no named strategy can be imported)')
